@@ -195,7 +195,20 @@ Proof.
   exact (write_new_file_safe_gen pl Hamo path chunks fin (W m0 0 tr) r w' Hq Hnp Hrun Hr).
 Qed.
 
-(* pdfcpu.WriteContext (err-keyed deferred finishWriteFile): a panicking body publishes the partial file *)
+(* pdfcpu.WriteContext as it is now (write.go): deferred finishWriteFile, nil error only when the body
+   returned nil AND `completed` was set = the flag-keyed instance of pdf_staged: safe for every ending *)
+Lemma write_context_fault_safe_proof fresh :
+  (forall m, m !! fresh m = None) ->
+  forall pl fin, one_cause pl fin ->
+  forall path chunks m0 tr r w',
+  pdf_staged pl fresh KFlag None path chunks fin (W m0 0 tr) = (r, w') -> r <> COk ->
+  unchanged m0 (wfs w').
+Proof.
+  intros Hfresh pl fin Hcause path chunks m0 tr r w' Hrun Hr.
+  exact (pdf_staged_fault_safe_proof fresh Hfresh pl fin Hcause KFlag None path chunks m0 tr (or_introl eq_refl) r w' Hrun Hr).
+Qed.
+
+(* the abstract err-keyed skeleton (WriteContext before the fix): a panicking body publishes the partial file *)
 Lemma write_context_panic_refuted_proof :
   exists r w', pdf_staged nofault fresh_path KErr None 2%positive [[1%N]] CPanic (W refute_m0 0 []) = (r, w') /\
     r = CPanic /\ wfs w' !! 2%positive = Some (File [1%N] mode_new) /\ ~ unchanged refute_m0 (wfs w').
@@ -212,9 +225,9 @@ Proof.
   eexists _, _, 3%positive. split; [vm_compute; reflexivity|]. split; [reflexivity|]. split; vm_compute; reflexivity.
 Qed.
 
-(* pdfcpu.WriteContext as it is (the deferred finishWriteFile reads a shadowed, always-nil err): a body
-   that merely RETURNS an error already publishes the partial file over the existing output, and the
-   function still returns that error *)
+(* the abstract shadowed-err skeleton (the deferred finish reads a local, always-nil err; WriteContext
+   before fix ab14e02e): a body that merely RETURNS an error already publishes the partial file over the
+   existing output, and the function still returns that error *)
 Lemma shadowed_err_commits_on_error_refuted_proof :
   exists r w', pdf_staged nofault fresh_path KAlways None 2%positive [[1%N]] CErr (W refute_m0 0 []) = (r, w') /\
     r = CErr /\ wfs w' !! 2%positive = Some (File [1%N] mode_new) /\ ~ unchanged refute_m0 (wfs w').
